@@ -390,6 +390,9 @@ func genContainer(g *Gen, prop string, i int) Group {
 		h.MaxScopes = 6
 	}
 	regs := g.RegSet(cfg)
+	if prop == "C14" && i%8 == 5 {
+		return g.initFailsWithForeignDisposedCase(i)
+	}
 	if prop == "C05" && i%20 == 13 {
 		// a result object refused after it had entered two members of one group: nothing of it may stay behind (a member
 		// left in its group has no node in the dependency graph, so the cycle check would not see what it depends on)
@@ -1003,6 +1006,35 @@ func (g *Gen) rebuildAfterRemovalCase(i int) Group {
 	}
 	ops = append(ops, Op{Kind: "closeprovider", P: 1}, Op{Kind: "closeprovider", P: 0})
 	return Group{Cases: []Case{{Name: fmt.Sprintf("%d/rebuild-after-removal", i), Ops: ops}}}
+}
+
+// initFailsWithForeignDisposedCase (C14): a scope initializer fails with an error of its own that WRAPS one of the
+// container's "disposed" sentinels (it consulted some other, closed scope or provider) after an earlier initializer has
+// made the new scope own a disposable: the half-built scope is rolled back like after any other failure - closed, its
+// instance disposed, tracked nowhere - and the next creation works.
+func (g *Gen) initFailsWithForeignDisposedCase(i int) Group {
+	tys := g.rnd.Perm(8)
+	failID, otherID := 1, 3 // (the scripted error of registration n wraps ErrScopeDisposed for n%5==1, ErrProviderDisposed for n%5==3)
+	if g.p(0.5) {
+		failID, otherID = 3, 1
+	}
+	g.nextRid = 4
+	d := &Reg{ID: 2, Life: Scoped, Form: Form{Kind: "ctor", Rets: []int{8 + tys[0]}}, Dyn: []int{8 + tys[0]}, CFail: []bool{false}}
+	a := &Reg{ID: otherID, Life: Scoped, Form: Form{Kind: "ctor", Params: []Param{{Dep: Dep{Ty: 8 + tys[0]}}}}}
+	how := OErr
+	f := &Reg{ID: failID, Life: Scoped, Form: Form{Kind: "ctor", Err: true}, Script: []int{OOk, how, OOk}}
+	if g.p(0.4) {
+		f.Form.Params = []Param{{Dep: Dep{Ty: 8 + tys[0]}}}
+	}
+	ops := []Op{{Kind: "add", Reg: d}, {Kind: "add", Reg: a}, {Kind: "add", Reg: f}, {Kind: "build"},
+		{Kind: "createscope", P: 0, Parent: 0}, // fails in the third initializer
+		{Kind: "createscope", P: 0, Parent: 0}, // works: handle 1
+		{Kind: "resolve", P: 0, H: 1, Ty: 8 + tys[0]}}
+	if g.p(0.5) {
+		ops = append(ops, Op{Kind: "close", P: 0, H: 1})
+	}
+	ops = append(ops, Op{Kind: "closeprovider", P: 0})
+	return Group{Cases: []Case{{Name: fmt.Sprintf("%d/init-fails-with-foreign-disposed", i), Ops: ops}}}
 }
 
 // wideTree: a scope with several children (created without a context of their own, so that closing the
